@@ -1,4 +1,15 @@
+/-
+Driver for C08.  Case line:
+
+  vn <qname> <qtype> <soa|-> <rcode> <answers|-> <nsecs|->
+
+* answers : `,`-separated `name/secure(0|1)/rrsigLabels(-|n)`
+* nsecs   : `,`-separated `owner/next/types` with types `+`-separated codes or `-`
+
+Answer: `secure` / `insecure` / `bogus` / `indeterminate`.
+-/
 import HickoryVerif.Drv.Proto
+import HickoryVerif.Model.Nsec
 
 namespace HickoryVerif.Drv.C08
 open HickoryVerif HickoryVerif.Drv
@@ -6,6 +17,46 @@ open HickoryVerif HickoryVerif.Drv
 abbrev State := Unit
 def init : State := ()
 
-def step (s : State) (_toks : List String) : State × String := (s, "bad-op")
+def parseList {α} (f : String → Option α) (sep : String) (s : String) : Option (List α) :=
+  if s == "-" then some [] else (s.splitOn sep).mapM f
+
+def parseAns (s : String) : Option Ans :=
+  match s.splitOn "/" with
+  | [n, sec, l] => do
+    let n ← parseName n
+    let sec ← (if sec == "1" then some true else if sec == "0" then some false else none)
+    let l ← (if l == "-" then some none else l.toNat?.map some)
+    pure { name := n, secure := sec, rrsigLabels := l }
+  | _ => none
+
+def parseNsec (s : String) : Option Nsec :=
+  match s.splitOn "/" with
+  | [o, n, ts] => do
+    let o ← parseName o
+    let n ← parseName n
+    let ts ← parseList String.toNat? "+" ts
+    pure { owner := o, next := n, types := ts }
+  | _ => none
+
+def showProof : Proof → String
+  | .secure => "secure"
+  | .insecure => "insecure"
+  | .bogus => "bogus"
+  | .indeterminate => "indeterminate"
+
+def handle (toks : List String) : Option String :=
+  match toks with
+  | ["vn", q, qt, soa, rc, ans, nsecs] => do
+    let q ← parseName q
+    let qt ← qt.toNat?
+    let soa ← (if soa == "-" then some none else (parseName soa).map some)
+    let rc ← rc.toNat?
+    let ans ← parseList parseAns "," ans
+    let nsecs ← parseList parseNsec "," nsecs
+    pure (showProof (Nsec.verifyNsec q qt soa rc ans nsecs))
+  | _ => none
+
+def step (s : State) (toks : List String) : State × String :=
+  (s, (handle toks).getD "bad-op")
 
 end HickoryVerif.Drv.C08
